@@ -174,6 +174,8 @@ def check_c14(exe, tier, seed, verdict):
             cases.append(("%s-%d" % (kind, n), ["longprobe %s %d %s" % (kind, n, hx(ROOT + "/lg"))]))
     for n in (6, 200, 254, 255, 256):
         cases.append(("filename-%d" % n, ["longname filename %d %s" % (n, hx(ROOT + "/ln%d" % n))]))
+    for n in (8, 254, 255):
+        cases.append(("dropins-%d" % n, ["longname dropins %d %s" % (n, hx(ROOT + "/ld%d" % n))]))
     for n in (200, 4093, 4094, 4095, 4096, 4097, 4098):
         cases.append(("path-%d" % n, ["longname path %d %s" % (n, hx(ROOT + "/lp%d" % n))]))
     # long option strings
